@@ -146,6 +146,15 @@ static Runner posit_runner() {
 		case 1: return 1ull << (nbits - 1);                 // NaR
 		case 2: { uint64_t d = g.below(3); return (g.coin() ? d : (M - d)) & M; }                       // around zero
 		case 3: { uint64_t d = g.below(3); return ((1ull << (nbits - 1)) + (g.coin() ? d : (M - d) + 1)) & M; }  // around NaR
+		case 4: { // magnitudes in [1, 2^20) with long runs of ones / zeros in the low fraction: values a hair below or above an
+		          // integer — where a conversion through a narrower float (to_int… via double / float) changes the integer part
+			const uint64_t one = 1ull << (nbits - 2);
+			uint64_t y = one + (g.next() & uv::mask(nbits > 8 ? nbits - 6 : 2));
+			unsigned z = (unsigned)g.below(nbits - 2);
+			y = g.coin() ? (y | uv::mask(z)) : (y & ~uv::mask(z));
+			y &= uv::mask(nbits - 1); if (!y) y = one;
+			return g.coin() ? y : ((~y + 1) & M);
+		}
 		default: return g.next() & M;
 		}
 	};
